@@ -77,6 +77,104 @@ def a1(chk, repo):
 
 
 def a2_a5(chk, repo):
+    """io.open evaluated by the shape interpreter on a model product: the four openers are replaced by recording stubs
+    (summary with known file roles, volume directory / leader / image groups that carry marks), the options get
+    distinctive values.  What is decided is which file goes to which opener, in which order, and where each result ends
+    up in the returned tree - however io.open is written.  When the interpreter cannot follow the code (threads, ...)
+    the def-use rules below take over."""
+    from collections import OrderedDict
+    from ..shapes import Choice, Const, DictS, Fn, Interp, ListLit, Obj, ShapeError, Top, _Raise
+    io = repo.module("ceos_alos2.io")
+    where = f"{io.relpath}:open"
+    si = repo.module("ceos_alos2.sar_image")
+
+    def G(path, data=None, attrs=None):
+        return Obj("Group", OrderedDict(path=Const(path), url=Const("u"), data=data or DictS(), attrs=attrs or DictS()))
+
+    products = [["IMG-HH-P-1.5"], ["IMG-HH-P-1.1", "IMG-HV-P-1.1"], ["IMG-HH-P-B1", "IMG-HH-P-B2", "IMG-HH-P-B3", "IMG-HV-P-B1", "IMG-HV-P-B2", "IMG-HV-P-B3"]]
+    results = []
+    for images in products:
+        I = Interp(repo)
+        calls = []
+        roles = DictS({"volume_directory": Const("VOL-P"), "sar_leader": Const("LED-P"), "sar_imagery": ListLit([Const(x) for x in images]), "sar_trailer": Const("TRL-P")})
+        summary = G("summary", DictS({"product_information": G("product_information", DictS({"data_files": G("data_files", None, roles)}))}))
+        marks = {"summary": summary, "volume": G("/", None, DictS({"vol": Const("V")})), "leader": G("metadata", None, DictS({"led": Const("L")}))}
+
+        def rec(name, ret):
+            def impl(I_, args, kwargs):
+                calls.append((name, args, kwargs))
+                return ret(args, kwargs)
+            return Fn("py", impl=impl, name=name)
+
+        def image(args, kwargs):
+            fname = args[1] if len(args) > 1 else kwargs.get("path")
+            if not isinstance(fname, Const):
+                raise ShapeError("open_image is not given a constant file name")
+            parts = fname.v.split("-")
+            gname = parts[1] + ("_scan" + parts[3][1:] if parts[3].startswith("B") else "")
+            return G("/" + gname, None, DictS({"src": fname}))
+        sc = I.module_scope(io)
+        sc.vars["open_summary"] = rec("open_summary", lambda a, k: marks["summary"])
+        sc.vars["open_volume_directory"] = rec("open_volume_directory", lambda a, k: marks["volume"])
+        sc.vars["open_sar_leader"] = rec("open_sar_leader", lambda a, k: marks["leader"])
+        I.module_scope(si).vars["open_image"] = rec("open_image", image)
+        sc.vars["sar_image"] = __import__("vlib.shapes", fromlist=["ModuleRef"]).ModuleRef(mod=si)
+        try:
+            out = I.call(I.lookup("open", sc), [Const("s3://bucket/product")], {"records_per_chunk": Const(7), "create_cache": Const(True), "use_cache": Const(False)})
+        except (ShapeError, _Raise, RecursionError) as e:
+            return a2_a5_syntactic(chk, repo, note=f"model evaluation not possible ({str(e)[:80]})")
+        if not (isinstance(out, Obj) and out.cls == "Group" and isinstance(out.fields.get("data"), DictS) and isinstance(out.fields.get("attrs"), DictS)):
+            return a2_a5_syntactic(chk, repo, note="model evaluation does not give a definite tree")
+        results.append((images, out, calls, marks))
+    for images, out, calls, marks in results:
+        n = len(images)
+        by = {}
+        for name, args, kwargs in calls:
+            by.setdefault(name, []).append((args, kwargs))
+
+        def fname_of(c):
+            a, k = c
+            x = a[1] if len(a) > 1 else k.get("path")
+            return x.v if isinstance(x, Const) else None
+        sm = [fname_of(c) for c in by.get("open_summary", [])]
+        chk.require(sm == ["summary.txt"], "C13-A2", where, "the summary is read from 'summary.txt' of the product", f"summary is read from {sm}", key="open:summary")
+        for opener, role, want in (("open_volume_directory", "volume_directory", "VOL-P"), ("open_sar_leader", "sar_leader", "LED-P")):
+            got = [fname_of(c) for c in by.get(opener, [])]
+            chk.require(got == [want], "C13-A2", where, f"{opener} reads the file listed as {role!r}",
+                        f"{opener} is given {got} instead of the file listed as {role!r} ({want}): the records of another file are parsed as the {role}", key=f"open:{role}")
+        got_imgs = [fname_of(c) for c in by.get("open_image", [])]
+        chk.require(got_imgs == images, "C13-A2", where, f"every file listed as 'sar_imagery' is opened by open_image, in summary order ({n} image(s))",
+                    f"open_image is called for {got_imgs}, the summary lists {images}: images are dropped, repeated or reordered", key="open:imagery-map", sample={"images": images})
+        opts = [{k: v.v for k, v in kw.items() if isinstance(v, Const)} for a, kw in by.get("open_image", [])]
+        want_opts = {"records_per_chunk": 7, "create_cache": True, "use_cache": False}
+        chk.require(all(o == want_opts for o in opts) and bool(opts), "C13-A2", where, "every image is opened with the caller's records_per_chunk / create_cache / use_cache",
+                    f"open_image receives {opts[:2]} for the call options {want_opts}", key="open:options")
+        data, attrs = out.fields["data"], out.fields["attrs"]
+        kinds = {k: ("summary" if v is marks["summary"] else "leader" if v is marks["leader"] else "volume" if v is marks["volume"] else
+                     "imagery" if isinstance(v, Obj) and isinstance(v.fields.get("path"), Const) and str(v.fields["path"].v).strip("/") == "imagery" else "?") for k, v in data.items.items()}
+        want = {"summary": "summary", "metadata": "leader", "imagery": "imagery"}
+        rpath = out.fields.get("path")
+        chk.require(kinds == want and isinstance(rpath, Const) and rpath.v == "/" and not data.optional, "C13-A3", where,
+                    "root '/' has exactly the children summary <- summary file, metadata <- SAR leader, imagery <- image groups",
+                    f"root children are {kinds} at path {rpath!r}; expected {want} at '/'", key="open:children", sample={"children": kinds})
+        img = data.items.get("imagery")
+        idata = img.fields.get("data") if isinstance(img, Obj) else None
+        if isinstance(idata, DictS):
+            names = list(idata.items)
+            srcs = [v.fields["attrs"].items["src"].v if isinstance(v, Obj) and isinstance(v.fields.get("attrs"), DictS) and "src" in v.fields["attrs"].items else None for v in idata.items.values()]
+            own = [v.fields["path"].v.strip("/") if isinstance(v, Obj) and isinstance(v.fields.get("path"), Const) else None for v in idata.items.values()]
+            chk.require(srcs == images and names == own and not idata.optional, "C13-A4", where, f"imagery = {{group.name: group}} for every image group, in order ({names})",
+                        f"imagery holds {dict(zip(names, srcs))} for the images {images}: groups are dropped, reordered or keyed by something else than their own name", key="open:imagery-dict")
+        else:
+            raise AnalysisError(f"{where}: the imagery group's children do not evaluate to a mapping")
+        a = {k: (v.v if isinstance(v, Const) else None) for k, v in attrs.items.items()}
+        ok = a.get("vol") == "V" and set(a) == {"vol", "reference_document"} and isinstance(a.get("reference_document"), str) and not attrs.optional
+        chk.require(ok, "C13-A5", where, "root attrs = volume directory attrs | {'reference_document': ...}", f"root attrs are {a}: not the volume directory attributes plus the reference link", key="open:root-attrs")
+
+
+def a2_a5_syntactic(chk, repo, note=None):
+    if note:
+        chk.note(f"C13-A2..A5: {note}; decided by the def-use rules instead")
     io = repo.module("ceos_alos2.io")
     op = io.func("open")
     where = f"{io.relpath}:open"
